@@ -266,6 +266,8 @@ def inspect_frame(frame: FrameType) -> FrameDetails:
             "stack before we get preempted."
         )
 
+    _verif_hook("inspect_frame:snapshot_done", frame)
+
     # Figure out the active context managers and finally blocks, by
     # using the exception table to repeatedly simulate raising an exception
     # from the location of the previous handler.
